@@ -197,6 +197,11 @@ class Program:
             return None
         return r[0]
 
+    def inlined(self, path):
+        """body with small private single-caller helpers expanded in place (sa/inline.py); the plain body when there are none"""
+        from . import inline
+        return inline.inlined(self, path)
+
     def find(self, regex):
         rx = re.compile(regex)
         return [b for b in self.bodies if rx.search(b.path)]
